@@ -485,6 +485,15 @@ class Ctx:
             if not err:
                 self.broken.append("coq-build-failed: " + ",".join(failed))
             self.axioms = []
+        if ok and self.tier == "thorough" and os.environ.get("VERIF_NO_COQCHK") is None:
+            # independent re-check of the compiled closure + axiom listing
+            rc, out, err = sh(["coqchk", "-o", "-silent", "-Q", ".", "VB", "VB." + prop[:-2]], cwd=COQ, timeout=3600)
+            self.cov["coqchk"] = {"rc": rc, "tail": (out + err)[-1500:]}
+            self.cov["obligations"] += 1
+            if rc == 0:
+                discharged += 1
+            else:
+                self.broken.append("coqchk:" + prop)
         deps = coq_deps(prop) if os.path.exists(pv) else []
         bad = hygiene([d for d in deps if os.path.exists(d)])
         if bad:
